@@ -338,13 +338,27 @@ struct StrDriver {
     {
     }
 
+    // The alphabet: not only letters. For one-byte characters it contains values with the top bit set (a signed
+    // comparison orders them before 'a'), for wider characters code units whose byte-wise order (memcmp) contradicts their
+    // numeric order (0x0100 vs 0x00FF on a little-endian machine).
+    static auto code(int64_t i) -> Char
+    {
+        if constexpr (sizeof(Char) == 1) {
+            constexpr unsigned char table[8] = {'a', 'b', 0x80, 'c', 0xFF, 'd', 0x7F, 'e'};
+            return static_cast<Char>(table[static_cast<uint64_t>(i) % 8]);
+        } else {
+            constexpr unsigned table[8] = {'a', 0x00FF, 0x0100, 'b', 0x01FE, 0x7F01, 'c', 0x0201};
+            return static_cast<Char>(table[static_cast<uint64_t>(i) % 8]);
+        }
+    }
+
     auto chr(int64_t v) const -> Char
     {
         int64_t const x = v % 8;
-        return x == 7 ? Char(0) : Char('a' + x % plan.cfg.alpha);
+        return x == 7 ? Char(0) : code(x % plan.cfg.alpha);
     }
 
-    auto chr_nonul(int64_t v) const -> Char { return Char('a' + (v % 8) % plan.cfg.alpha); }
+    auto chr_nonul(int64_t v) const -> Char { return code((v % 8) % plan.cfg.alpha); }
 
     // text of `len` characters derived from the step's values
     auto text(Step const& st, size_t len, bool allowNul, unsigned salt = 0) const -> M
